@@ -6,9 +6,14 @@
 #include "harness.h"
 int64_t w_parallel_range(uint64_t start, uint64_t end, uint64_t nthreads, uint64_t* out);
 int64_t w_parallel_range_blocks(uint64_t start, uint64_t end, uint64_t block, uint64_t nthreads, uint64_t* out);
+int64_t w_parallel_range_multi(uint64_t start, uint64_t end, uint64_t block, uint64_t nthreads, uint64_t* out, uint64_t cap);
+#ifndef MULTI
+#define MULTI 0
+#endif
 #define START 5
 static uint32_t visits[RANGE + 1], oob, bad_thread, thread_seen[T + 1];
 static uint64_t hit; /* index of the single true value, or RANGE for none */
+static uint8_t truth[RANGE + 1]; /* MULTI: any subset of values may return true (the _multi variant never stops early) */
 #ifdef VERIF_NATIVE_REAL
 #include <pthread.h>
 #include <time.h>
@@ -74,8 +79,27 @@ uint8_t STUB(verif_cb)(uint64_t v, uint64_t t) {
   if (v >= START && v < START + RANGE) visits[v - START]++; else oob = 1;
   if (t >= T) bad_thread = 1; else thread_seen[t] = 1;
   UNLOCK();
-  return v == START + hit;
+  return MULTI ? ((v >= START && v < START + RANGE) ? truth[v - START] : 0) : (v == START + hit);
 }
+#if MULTI
+void harness(void) {
+  for (int i = 0; i < RANGE; i++) truth[i] = in_bool();
+  uint64_t out[RANGE + 1];
+  int64_t rc = w_parallel_range_multi(START, START + RANGE, BLK, T, out, RANGE + 1);
+  OBS(rc);
+  ASSERT(started == T && joined == T, "exactly num_threads workers are started and every one is joined before the call returns");
+  ASSERT(!oob, "callback never invoked outside [start,end)");
+  ASSERT(!bad_thread && !bad_tn, "thread numbers lie in [0,num_threads)");
+  for (int i = 0; i < RANGE; i++) ASSERT(visits[i] == 1, "_multi never stops early: every value visited exactly once");
+  uint64_t n = 0;
+  for (int i = 0; i < RANGE; i++) if (truth[i]) n++;
+  ASSERT(rc == (int64_t)n, "_multi returns exactly as many values as callbacks returned true");
+  if (rc == (int64_t)n) {
+    uint64_t k = 0;
+    for (int i = 0; i < RANGE; i++) if (truth[i]) { ASSERT(out[k] == START + (uint64_t)i, "_multi returns exactly the set of true values"); k++; }
+  }
+}
+#else
 void harness(void) {
   hit = in_range(0, RANGE);
   uint64_t out = 0;
@@ -93,3 +117,4 @@ void harness(void) {
     ASSERT(out == START + hit, "single hit: that value is returned");
   }
 }
+#endif
